@@ -1039,4 +1039,86 @@ theorem c14_numbered_switch_reference_order_free {cfg : RichCfg} {secs : List RS
   rw [Props.C09.c09_numbered_switch_written_as_its_number h1 ctx1 hc1 s i hs hu1 j1 hj1,
       Props.C09.c09_numbered_switch_written_as_its_number h2 ctx2 hc2 s i hs hu2 j2 hj2]
 
+/-! ### every switch a save uses gets a number -/
+
+/-- the placement loop records every switch it is given, in order -/
+theorem rebuildSwnm_go_ids_cover :
+    ∀ (ss : List RSwitch) (free : List Nat) (tbl : List RSwitch) (ids : List (RSwitch × Nat))
+      (out : List RSwitch) (oids : List (RSwitch × Nat)),
+      rebuildSwnm.go ss free tbl ids = .ok (out, oids) →
+      oids.map (·.1) = ids.reverse.map (·.1) ++ ss := by
+  intro ss
+  induction ss with
+  | nil =>
+    intro free tbl ids out oids h
+    simp only [rebuildSwnm.go, Except.ok.injEq, Prod.mk.injEq] at h
+    rw [← h.2]; simp
+  | cons s rest ih =>
+    intro free tbl ids out oids h
+    simp only [rebuildSwnm.go] at h
+    cases hj : s.idx with
+    | some j =>
+      simp only [hj] at h
+      cases hcur : tbl[j]? with
+      | none => simp [hcur] at h
+      | some cur =>
+        simp only [hcur] at h
+        split at h
+        · rw [ih _ _ _ _ _ h]; simp
+        · rw [ih _ _ _ _ _ h]; simp
+    | none =>
+      simp only [hj] at h
+      cases free with
+      | nil => simp at h
+      | cons f fs =>
+        simp only at h
+        rw [ih _ _ _ _ _ h]; simp
+
+theorem RSwitch.same_refl (s : RSwitch) : RSwitch.same s s = true := by
+  unfold RSwitch.same
+  split <;> simp
+
+/-- **every switch a save uses gets a number**: when the switch rebuild succeeds, each switch of the (deduplicated)
+batch collected from the triggers can be written — the encoder's lookup finds a number for it (`switchId … ≠ none`).
+With `c09_numbered_switch_written_as_its_number` (a switch that carries a number is written as that number) and
+`c09_new_switch_numbers_fresh` (new numbers are fresh and pairwise different): a successful save writes every
+switch reference, and writes it correctly. -/
+theorem c09_every_used_switch_has_a_number {cfg : RichCfg} {secs : List RSection} {order : Option (List Nat)}
+    {tbl : List RSwitch} {ids : List (RSwitch × Nat)}
+    (h : rebuildSwnm cfg secs order = .ok (tbl, ids))
+    (ctx : EncCtx) (hctx : ctx.switchIds = ids) :
+    ∀ u ∈ allocOrder order (dedupBy RSwitch.same ((secs.filter (fun s => !isSectionNamed nSWNM s)).flatMap (sectionSwitches cfg))),
+      (switchId ctx u).isSome = true := by
+  intro u hu
+  rw [rebuildSwnm_eq_core] at h
+  obtain ⟨swnm, h⟩ : ∃ swnm, swnmCore cfg swnm (allocOrder order (dedupBy RSwitch.same
+      ((secs.filter (fun s => !isSectionNamed nSWNM s)).flatMap (sectionSwitches cfg)))) = .ok (tbl, ids) := ⟨_, h⟩
+  unfold swnmCore at h
+  simp only at h
+  split at h
+  · simp at h
+  · have hcov := rebuildSwnm_go_ids_cover _ _ _ _ _ _ h
+    simp only [List.reverse_nil, List.map_nil, List.nil_append] at hcov
+    unfold switchId
+    rw [hctx]
+    have hex : ∃ p ∈ ids, RSwitch.same p.1 u = true := by
+      cases hany : ((swnm.filter hasCustomName).any fun n => RSwitch.same n u) with
+      | true =>
+        obtain ⟨n, hn, hsame⟩ := List.any_eq_true.mp hany
+        have : n ∈ ids.map (·.1) := by rw [hcov]; exact List.mem_append_left _ hn
+        obtain ⟨p, hp, hpn⟩ := List.mem_map.mp this
+        exact ⟨p, hp, by rw [hpn]; exact hsame⟩
+      | false =>
+        have : u ∈ ids.map (·.1) := by
+          rw [hcov]
+          exact List.mem_append_right _ (List.mem_filter.mpr ⟨hu, by simp [hany]⟩)
+        obtain ⟨p, hp, hpu⟩ := List.mem_map.mp this
+        exact ⟨p, hp, by rw [hpu]; exact RSwitch.same_refl u⟩
+    obtain ⟨p, hp, hps⟩ := hex
+    cases hfind : ids.find? (fun p => RSwitch.same p.1 u) with
+    | none =>
+      have := List.find?_eq_none.mp hfind p hp
+      simp [hps] at this
+    | some q => simp
+
 end Richchk.Props.C14
